@@ -96,6 +96,15 @@ def h_frame(hx, slot, frame_type):
         hx.prove(AND(b1.source_radio_id == f["src"], b2.source_radio_id == f["src"]), "%s: burst source id" % tag)
         hx.prove(AND(b1._target_radio_id == f["dst"], b2._target_radio_id == f["dst"]), "%s: burst destination id" % tag)
         hx.prove(AND(b1.hytera_ipsc.color_code == f["cc"], b2.hytera_ipsc.color_code == f["cc"]), "%s: colour code" % tag)
+        # "for every frame": also for a frame that was decoded before.  The receive pipeline renumbers the bursts it handles
+        # (Timeslot.process_burst -> set_sequence_no / set_stream_no); decoding the same 72 bytes again must not be affected by that.
+        b1.set_sequence_no((f["seq"] + 1) & 255).set_stream_no(b"\x01\x02\x03\x04")
+        stb3, b3 = hx.guard(Burst.from_hytera_ipsc, frame)
+        hx.prove(stb3 == "ok", "%s: decoding the same frame a second time does not fail" % tag)
+        if stb3 == "ok":
+            hx.prove(b3 is not b1, "%s: every decode returns a fresh burst object" % tag)
+            hx.prove(AND(b3.sequence_no == f["seq"], b3.full_bits == b2.full_bits, b3.source_radio_id == f["src"]),
+                     "%s: a second decode of the same bytes (after the first burst was renumbered by the receive pipeline) still gives the frame's sequence number, bits and ids" % tag)
     hx.cover("frame")
 
 
